@@ -58,6 +58,7 @@ struct vm_dev
     void* page;   // device object
     size_t page_bytes;
     int open, closed_pages;
+    int self_stops; // runs the device ended by itself (a failing append answers a non-running state)
     int opens, closes, starts, stops, started; // started: between a successful start and stop
     int calls_in_run, appends_in_run;
     int acq;      // number of successful starts so far (1-based acquisition number while running)
